@@ -3,7 +3,8 @@
    points (the byte->text layer is checked separately by C10/C08).
    decoder ids: 0 General 1 Editor 2 Metadata 3 Difficulty 4 Events 5 Colors
                 6 TimingPoints 7 HitObjects 8 Beatmap *)
-From RM Require Import Model.Decoders.
+From RM Require Import Model.Decoders Model.CurveDist Model.Reader.
+From RM Require Model.Curve.
 
 Definition dump_oc {A} (d : A -> list Z) (x : outcome A) : list Z :=
   match x with Done a => 0 :: d a | Panic w => [1; w] | OutOfFuel => [2] end.
@@ -20,5 +21,63 @@ Definition run_dec_simple (inp : list Z) : list Z :=
       else if id =? 5 then dump_colors (decode_colors lines)
       else if id =? 6 then dump_oc dump_tpv (decode_timing_points lines)
       else [98]
+  | [] => [99]
+  end.
+
+(* finished hit objects: the curve distance stands in for the path mode,
+   which the implementation does not expose *)
+Definition dump_object_v (lm : Curve.Libm) (h : HitObject) : list Z :=
+  D.bits (h_start h) ::
+  (match h_kind h with
+   | KSlider s =>
+       1 :: dump_pos (sl_pos s) ++ [hbz (sl_new_combo s); sl_combo_offset s] ++
+       (match dist_of_curve lm (sl_mode s) (sl_control_points s) (sl_expected_dist s) with
+        | Done d => [D.bits d] | _ => [-1] end) ++
+       dump_pcps (sl_control_points s) ++ dump_optf64 (sl_expected_dist s) ++
+       (Z.of_nat (length (sl_node_samples s)) :: flat_map dump_samples (sl_node_samples s)) ++
+       [sl_repeat_count s; D.bits (sl_velocity s)]
+   | k => dump_kind k
+   end) ++ dump_samples (h_samples h).
+
+Definition dump_hov_v (lm : Curve.Libm) (v : HitObjectsV) : list Z :=
+  dump_general (hov_general v) ++ dump_difficulty_v (hov_difficulty v) ++ dump_events (hov_events v) ++
+  dump_cp (hov_control_points v) ++
+  (Z.of_nat (length (hov_hit_objects v)) :: flat_map (dump_object_v lm) (hov_hit_objects v)).
+Definition dump_bmv_v (lm : Curve.Libm) (v : BeatmapV) : list Z :=
+  [bmv_version v] ++ dump_editor (bmv_editor v) ++ dump_metadata (bmv_metadata v) ++
+  dump_colors (bmv_colors v) ++ dump_hov_v lm (bmv_ho v).
+
+Definition run_dec (lm : Curve.Libm) (inp : list Z) : list Z :=
+  match inp with
+  | id :: text =>
+      let lines := lines_of_text text in
+      if id =? 7 then dump_oc (dump_hov_v lm) (decode_hit_objects (dist_of_curve lm) lines)
+      else if id =? 8 then dump_oc (dump_bmv_v lm) (decode_beatmap (dist_of_curve lm) lines)
+      else run_dec_simple inp
+  | [] => [99]
+  end.
+
+(* decb: decoder id, then the RAW BYTES of the file: the reader model (BOM,
+   encodings, line splitting; one-chunk schedule = from_bytes) composed with
+   the decoder models.  io prefix: 0 ok / 1 kind / 2 panic / 3 fuel. *)
+Definition run_decb (lm : Curve.Libm) (inp : list Z) : list Z :=
+  match inp with
+  | id :: bytes =>
+      match read_all_lines (mk_reader bytes []) with
+      | IoDone lines =>
+          0 :: (if id =? 7 then dump_oc (dump_hov_v lm) (decode_hit_objects (dist_of_curve lm) lines)
+                else if id =? 8 then dump_oc (dump_bmv_v lm) (decode_beatmap (dist_of_curve lm) lines)
+                else if id =? 0 then dump_general (decode_general lines)
+                else if id =? 1 then dump_editor (decode_editor lines)
+                else if id =? 2 then dump_metadata (decode_metadata lines)
+                else if id =? 3 then dump_difficulty_v (decode_difficulty lines)
+                else if id =? 4 then dump_events (decode_events lines)
+                else if id =? 5 then dump_colors (decode_colors lines)
+                else if id =? 6 then dump_oc dump_tpv (decode_timing_points lines)
+                else [98])
+      | IoErr k => [1; kind_code k]
+      | IoPanic w => [2; w]
+      | IoFuel => [3]
+      end
   | [] => [99]
   end.
